@@ -1178,6 +1178,7 @@ package ring
 
 // ---- Ring.MultByMonomial: run-time safety for every k (no index out of range, no overflow) and frame ----
 //@ func Ring.N
+//@   assigns
 //@   requires 0 < len(r.SubRings)
 //@   ensures result == r.SubRings[0].N
 
@@ -1212,6 +1213,7 @@ package ring
 //@   requires len(b) >= 8
 
 //@ func Ring.Level
+//@   assigns
 //@   ensures result == r.level
 
 //@ func UniformSampler.read
@@ -1272,6 +1274,7 @@ package ring
 //@   loop 0 lemma cong_trans(result*pow(x, i), prev(result)*pow(prev(x)*prev(x), i), pow(old(x), e), p)
 
 //@ func Ring.NthRoot
+//@   assigns
 //@   requires 0 < len(r.SubRings)
 //@   ensures result == r.SubRings[0].NthRoot
 
@@ -1299,3 +1302,46 @@ package ring
 //@   ensures X < 2*Q && Y < 2*Q
 //@   ensures cong(X, U + V, Q) by cong_intro(X, U + V, ite(U + V >= 2*Q, 0 - 2, 0), Q)
 //@   ensures cong(Y*W, (U - V)*Psi, Q) by mulhyp(val("U+fourQ-V"), U + 4*Q - V, Psi); cong_intro(U + 4*Q - V, U - V, 4, Q); cong_scale(U + 4*Q - V, U - V, Psi, Q); cong_trans(Y*W, (U + 4*Q - V)*Psi, (U - V)*Psi, Q)
+
+// ---- hand-unrolled 8-lane helpers of the basis extension (property C02): lane consistency ----
+//@ lanes8 reconstructRNSCentered
+//@   property C02
+
+//@ lanes8 reconstructRNS
+//@   property C02
+
+//@ lanes8 multSum
+//@   property C02
+
+// ---- Galois automorphism in the NTT domain through an index table: lane consistency of the
+// ---- unrolled gather, and run-time safety (windows fit, gathered indices in range) ----
+//@ lanes8 Ring.AutomorphismNTTWithIndex
+//@   property C01
+
+//@ lanes8 Ring.AutomorphismNTTWithIndexThenAddLazy
+//@   property C01
+
+//@ lanes8 subScalarMontgomeryAndMulCoeffsMontgomery
+//@   property C01
+
+//@ func Ring.AutomorphismNTTWithIndex
+//@   property C01
+//@   let n = r.SubRings[0].N
+//@   requires ringwf(r) && r.level < len(polIn.Coeffs) && r.level < len(polOut.Coeffs)
+//@   requires 0 <= n && n % 8 == 0 && len(index) >= n
+//@   requires forall(i, 0, r.level+1, len(polIn.Coeffs[i]) >= n && len(polOut.Coeffs[i]) >= n)
+//@   requires forall(k, 0, n, index[k] < n)
+//@   requires forall(i, 0, r.level+1, disjoint(polOut.Coeffs[i], index))
+//@   loop 0 invariant 0 <= j && j <= N && j % 8 == 0 && forall(k, 0, n, index[k] < n)
+//@   loop 1 invariant 0 <= i && i <= level+1 && forall(k, 0, n, index[k] < n)
+
+//@ func Ring.AutomorphismNTTWithIndexThenAddLazy
+//@   property C01
+//@   let n = r.SubRings[0].N
+//@   requires ringwf(r) && r.level < len(polIn.Coeffs) && r.level < len(polOut.Coeffs)
+//@   requires 0 <= n && n % 8 == 0 && len(index) >= n
+//@   requires forall(i, 0, r.level+1, len(polIn.Coeffs[i]) >= n && len(polOut.Coeffs[i]) >= n)
+//@   requires forall(k, 0, n, index[k] < n)
+//@   requires forall(i, 0, r.level+1, disjoint(polOut.Coeffs[i], index))
+//@   loop 0 invariant 0 <= j && j <= N && j % 8 == 0 && forall(k, 0, n, index[k] < n)
+//@   loop 1 invariant 0 <= i && i <= level+1 && forall(k, 0, n, index[k] < n)
